@@ -242,7 +242,22 @@ func (s *Speller) Lit(val []byte, ic bool) string {
 		out = "'" + s.litRune(rs[0], '\'') + "'"
 	case k == 1 && !strings.ContainsAny(string(val), "`\r") && utf8.Valid(val) && !strings.ContainsRune(string(val), utf8.RuneError):
 		s.feat("raw_quoted")
-		out = "`" + string(val) + "`"
+		txt := string(val)
+		if s.u(3, "rawcr") == 0 {
+			// carriage returns inside a raw string literal are not part of its value (Go
+			// notation): a file saved with CRLF line ends denotes the same literal
+			s.feat("raw_quoted_with_cr")
+			if strings.Contains(txt, "\n") {
+				txt = strings.ReplaceAll(txt, "\n", "\r\n")
+			} else {
+				at := s.u(len(txt)+1, "rawcrat")
+				for at > 0 && at < len(txt) && !utf8.RuneStart(txt[at]) {
+					at--
+				}
+				txt = txt[:at] + "\r" + txt[at:]
+			}
+		}
+		out = "`" + txt + "`"
 	default:
 		var b strings.Builder
 		b.WriteByte('"')
